@@ -16,6 +16,11 @@ from . import leanrun
 ROOT = os.path.dirname(os.path.dirname(os.path.abspath(__file__)))
 EVIDENCE_DIR = os.path.join(ROOT, "evidence")
 REPLAY_DIR = os.path.join(ROOT, "replays")
+if os.environ.get("VERIF_REPO", "/repo") != "/repo":
+    # development runs against a scratch copy of typedpy (seeded changes): never overwrite the evidence
+    # and replays that describe /repo itself
+    EVIDENCE_DIR = os.path.join(ROOT, "work", "alt-evidence")
+    REPLAY_DIR = os.path.join(ROOT, "work", "alt-replays")
 CORPUS_DIR = os.path.join(ROOT, "corpus")
 FINDINGS_FILE = os.path.join(ROOT, "known_findings.json")
 
